@@ -210,6 +210,9 @@ func execC08Hist(c *vf.Ctx, d *vf.Driver, cs c08Case) {
 			return
 		}
 		mkey = c08WithRaw(o.Val, vf.FromJSON(obj))
+		if mm.Kind == "rsa" && mm.Priv {
+			mm.Pre = true // ParseKey Precompute()s an RSA private key: dp, dq, qi (and oth) are part of its value
+		}
 		cur, params, fromParse = &mm, pp, true
 		// thumbprints a parse fills in from the chain are then part of the key's value
 	}
@@ -240,10 +243,6 @@ func execC08Hist(c *vf.Ctx, d *vf.Driver, cs c08Case) {
 			return false
 		}
 		goMap, _ := c08DecodeObj(data)
-		if got, want := c08Canon(goMap), vf.FromJSON(mObj.ToJSON()).Render(); got != want {
-			c08Fail(c, "correspondence", "c08-history-marshal-value", "MarshalJSON after "+step+": object differs from the model's", cs, string(data), string(mustJSON(mObj.ToJSON())))
-			return false
-		}
 		// … vs the independent encoder of the CURRENT value
 		rfc := c08RFCJWK(*cur, params)
 		if got, want := c08Canon(goMap), c08Canon(rfc); got != want {
@@ -262,6 +261,10 @@ func execC08Hist(c *vf.Ctx, d *vf.Driver, cs c08Case) {
 			}
 			c08Fail(c, "property", cls, fmt.Sprintf("after %s MarshalJSON is not the JWK of the current key value (members from an earlier state: %v)", step, stale),
 				cs, string(data), string(mustJSON(rfc)))
+			return false
+		}
+		if got, want := c08Canon(goMap), vf.FromJSON(mObj.ToJSON()).Render(); got != want {
+			c08Fail(c, "correspondence", "c08-history-marshal-value", "MarshalJSON after "+step+": object differs from the model's", cs, string(data), string(mustJSON(mObj.ToJSON())))
 			return false
 		}
 		// Thumbprint of the current public members
